@@ -61,11 +61,15 @@ StNow == [k \in 1 .. (NB + 1) |-> IF (k - 1) \in DOMAIN rows THEN rows[k - 1].st
 OffNow == {nd[p].best : p \in {q \in Peers : nd[q].conn}}
 BestNow == IF OffNow = {} THEN -1 ELSE CHOOSE b \in OffNow : \A c \in OffNow : HOf(c) <= HOf(b)
 \* which known limitation of the single-sync-peer design explains a store that stays behind (known_findings.jsonl L1-L3)
-Why == IF BestNow <= 0 \/ (BestNow \in Stored /\ rows[BestNow].st = "L") THEN ""
+\* C06's outcome, in the terms of the statement: every greatest-work chain offered by a connected node is stored, and the
+\* tip reported has at least that work (all blocks here have work 1: work = height; an equal-work competitor may stay "S")
+BestSet == {b \in OffNow : \A c \in OffNow : HOf(c) <= HOf(b)}
+Conv == \A b \in BestSet : b = 0 \/ (b \in Stored /\ rows[Tip].height >= HOf(b))
+Why == IF Conv THEN ""
        ELSE IF syncPeer # 0 /\ nd[syncPeer].conn /\ HOf(nd[syncPeer].best) < HOf(BestNow) THEN "L3-lagging-sync-peer"
        ELSE IF syncPeer = 0 THEN "L2-no-sync-candidate-left"
        ELSE "L1-announcement-not-followed"
-Final == [st |-> StNow, tip |-> Tip, bestoff |-> BestNow, banned |-> SetToSeq(ban), why |-> Why]
+Final == [st |-> StNow, tip |-> Tip, bestoff |-> BestNow, best |-> SetToSeq(BestSet \ {0}), conv |-> Conv, banned |-> SetToSeq(ban), why |-> Why]
 EmitInv == (Emit = "paths" /\ Terminal) => PrintT(ToJson([hist |-> hist, scn |-> Scn, final |-> Final]))
 \* C06 on the specification: whenever the engine as designed ends behind the best chain offered, one of the listed
 \* limitations explains it (any other way of not converging is a counter-example)
